@@ -154,3 +154,61 @@ func cmdReplay(args []string) {
 		cmdCheck([]string{"-prop", p})
 	}
 }
+
+// c14Canary replays the circuit of known finding F3 on the real compiler: two two-qubit gates in one layer on
+// interleaved qubits (cx a c ; cx b d on a:b:c:d). When the compiled matrix equals the one of the adjacent circuit
+// (cx a b ; cx c d) the defect is still present. This is a replay of a recorded failing input, not a proof.
+func c14Canary(c *checkRun) {
+	src := `package bmqsim
+
+import (
+	"fmt"
+	"testing"
+
+	"github.com/BondMachineHQ/BondMachine/pkg/bmline"
+	"github.com/BondMachineHQ/BondMachine/pkg/bmmatrix"
+)
+
+func compileLayer(t *testing.T, lines []string) *bmmatrix.BmMatrixSquareComplex {
+	sim := new(BmQSimulator)
+	sim.BmQSimulatorInit()
+	for i, q := range []string{"a", "b", "c", "d"} {
+		sim.qbits = append(sim.qbits, q)
+		sim.qbitsNum[q] = i
+	}
+	var ops []*bmline.BasmLine
+	for _, l := range lines {
+		bl, err := bmline.Text2BasmLine(l)
+		if err != nil {
+			t.Fatal(err)
+		}
+		ops = append(ops, bl)
+	}
+	m, err := sim.BmMatrixFromOperation(ops)
+	if err != nil {
+		t.Fatal(err)
+	}
+	return m
+}
+
+func TestVerifReplay(t *testing.T) {
+	m1 := compileLayer(t, []string{"cx::a::c", "cx::b::d"})
+	m2 := compileLayer(t, []string{"cx::a::b", "cx::c::d"})
+	same := m1.N == m2.N
+	for i := 0; same && i < m1.N; i++ {
+		for j := 0; j < m1.N; j++ {
+			if m1.Data[i][j] != m2.Data[i][j] {
+				same = false
+			}
+		}
+	}
+	fmt.Printf("REPLAY interleaved_equals_adjacent=%t n=%d\n", same, m1.N)
+}
+`
+	out, _ := runOverlayTest("/repo", "pkg/bmqsim", "TestVerifReplay", src, 60*time.Second)
+	if strings.Contains(out, "REPLAY interleaved_equals_adjacent=true") {
+		c.canaries = append(c.canaries, "bmqsim.BmQSimulator.BmMatrixFromOperation#replay[interleaved_two_qubit_gates]")
+	} else if !strings.Contains(out, "REPLAY interleaved_equals_adjacent=false") {
+		c.warnings = append(c.warnings, "C14 canary replay did not run: "+truncateOut(out, 300))
+	}
+}
